@@ -243,7 +243,7 @@ def shard_random(ctx, arg):
         if fam in ("complete", "dense") and n > 40:
             n = rng.randint(5, 40)
         adj = gen_random(rng, n, fam)
-        cp = rng.choice([0.0, 0.0, 0.2, 0.5])
+        cp = rng.choice([0.0, 0.0, 0.2, 0.5, 1.0])      # 1.0: every edge is an exception edge (no regular edge at all)
         catch = [0] * n
         if cp:
             for i in range(n):
@@ -267,6 +267,25 @@ def shard_random(ctx, arg):
         if idx == 0 and c < 3:
             ctx.sample({"family": fam, "n": n, "succ": {u: [v for v in range(n) if (adj[u] >> v) & 1] for u in range(min(n, 12))}, "catch_masks": catch[:12]})
     ctx.count("random_graphs", count)
+
+
+def shard_large(ctx, arg):
+    """graphs beyond 1000 nodes (long methods, generated parsers): implementations switch algorithms / hit recursion limits by size"""
+    which, idx, count = arg
+    rng = ctx.rng("graphs-large", which, idx)
+    for c in range(count):
+        fam = ["ladder", "chain_back", "diamonds", "sparse", "irreducible"][(c + idx) % 5]
+        n = rng.choice([1001, 1024, 1500, 2048, 3000])
+        adj = gen_random(rng, n, fam)
+        catch = [0] * n
+        if rng.random() < 0.3:
+            for i in range(0, n, 7):
+                catch[i] = adj[i] & -adj[i] if adj[i] else 0
+        ref = None
+        if which == "C18":
+            ref = G.idoms_big({u: [v for v in range(n) if (adj[u] >> v) & 1] for u in range(n)}, 0)
+        ctx.count("large_graphs")
+        check_graph(ctx, which, _mk_nodes(n), adj, catch, use_api=True, idom_ref=ref, tag="large-" + fam, sigextra=(n,))
 
 
 def _reach(succ, s):
@@ -403,7 +422,7 @@ def shard_pipeline(ctx, arg):
     state = {"cur": None, "calls": 0, "bad": []}
 
     def model(g):
-        nodes = list(g.nodes)
+        nodes = list(dict.fromkeys(g.nodes))     # a node listed twice is still one node of the graph
         succ = {u: [v for v in g.all_sucs(u)] for u in nodes}
         return nodes, succ
 
@@ -497,6 +516,14 @@ def shard_pipeline(ctx, arg):
                     ("return", 2)]                      # X
             c.add_method("c%d" % k, "I", ("I", "I"), ST, W.Code(3, 2, 0, list(pre) + body))
             k += 1
+        # one try block naming the SAME handler address several times (multi-catch, typed handler sharing its code with the catch-all)
+        # regs: v0 scratch, p0=v1, p1=v2 ; 0: div-int v0,p0,p1 (2) ; 2: return v0 ; 3: const/4 v0,-1 ; 4: return v0
+        body = [("div-int", 0, 1, 2), ("return", 0), ("const/4", 0, -1), ("return", 0)]
+        for hs, ca in (([("Ljava/lang/ArithmeticException;", 3), ("Ljava/lang/RuntimeException;", 3)], None),
+                       ([("Ljava/lang/ArithmeticException;", 3)], 3),
+                       ([("Ljava/lang/ArithmeticException;", 3), ("Ljava/lang/Exception;", 3)], 3)):
+            c.add_method("c%d" % k, "I", ("I", "I"), ST, W.Code(3, 2, 0, list(body), [W.Try(0, 2, hs, ca)]))
+            k += 1
         datas.append(("crafted", W.write_dex(m)))
     else:
         with open(source, "rb") as f:
@@ -546,6 +573,8 @@ def run(ctx, which):
         shards.append(("shard_random", (which, i, per, 300)))
     for i in range(4):
         shards.append(("shard_history", (which, i, 500 if ctx.quick else 20000)))
+    for i in range(2 if ctx.quick else 8):
+        shards.append(("shard_large", (which, i, 3 if ctx.quick else 10)))
     import glob
     import os
     from vf.harness import REPO
